@@ -406,11 +406,12 @@ Section ProgNat.
       gd_update O (tmap s) lr params = liftT (gd_update O s lr params).
   Proof.
     intros s lr params. unfold gd_update. cbv zeta.
-    assert (Hfr : map (fun h => match grad_of (tmap s) h with None => true | Some _ => false end) params
-                  = map (fun h => match grad_of s h with None => true | Some _ => false end) params)
-      by (apply map_ext; intros h; rewrite grad_of_T; reflexivity).
+    assert (Hfr : forall taken, frozen_flags (tmap s) taken params = frozen_flags s taken params).
+    { induction params as [|h0 ps IHps]; intros taken; [reflexivity|].
+      cbn [frozen_flags]. rewrite grad_of_T.
+      destruct (grad_of s h0); [destruct (existsb (Nat.eqb (e_node h0)) taken)|]; f_equal; apply IHps. }
     rewrite Hfr. clear Hfr.
-    set (frozen := map (fun h => match grad_of s h with None => true | Some _ => false end) params).
+    set (frozen := frozen_flags s [] params).
     set (unf := map fst (filter (fun p : handle * bool => negb (snd p)) (combine params frozen))).
     rewrite (mapM_ext_all (fun h => a <- h_arr (tmap s) h ;; Some (vals a))
                           (fun h => a <- h_arr s h ;; Some (vals a)))
